@@ -84,8 +84,8 @@ def table_cases(ctx):
         shutil.rmtree(d, ignore_errors=True)
 
 
-def _x_obs(rng, x):
-    if rng.random() < 0.3:
+def _x_obs(rng, x, cov=None):
+    if (rng.random() < 0.3) if cov is None else cov:
         return pe.cov_Obs(float(x), (0.01 * x) ** 2, 'xcov')
     lay = gen.operand_layouts(rng, str(rng.choice(['same', 'multi_replica', 'gapped'])), 1)[0]
     o = gen.make_obs(rng, lay, mean=1.0, sigma=0.02)
@@ -143,9 +143,9 @@ SPECIAL = [
 def special_cases(rng, ctx, npts):
     cases = []
     for name, f, (lo, hi) in SPECIAL:
-        for x in np.linspace(lo, hi, npts + 2)[1:-1]:
+        for j, x in enumerate(np.linspace(lo, hi, npts + 2)[1:-1]):
             x = float(x)
-            xo = _x_obs(rng, x)
+            xo = _x_obs(rng, x, cov=(j % 3 == 2))          # two Monte-Carlo arguments, then one covariance input, in turn
             x = float(xo.value)
             h = 0.02 * max(1e-2, min(abs(x), hi - x, x - lo, 1.0))
             try:
